@@ -11,6 +11,8 @@ CLAIMED = {
  "C11": ("other", "parser.Walk read as a table: pushed dynamic types subset of handled cases, every node field pushed once, optional fields nil-guarded, one gated visitor call per case. Nearly the whole property is a shape property of one function, so a table-agreement check is the right level.", "DESIGN.md §3 C11",
          "table extraction from the type switch (go/types implementers vs cases) + AST guard matching"),
 }
+CLAIMED["C13"] = ("other", "Return-pair typestate of Compile on every path, single-query typestate, arity ranges at the first emission of every built-in writer compared with the documented table, error discipline of every emitting call, let-mode and join-alias gates as must-facts at the identifier emission, row-count and join-kind validation in the parser. 'Every rule-abiding program compiles' quantifies over programs and is not decided.", "DESIGN.md §3 C13",
+         "path facts (AST abstract interpreter) at return/emission sites + table agreement")
 NA = {}
 def main():
     props = [json.loads(l) for l in open('/verif/properties.jsonl')]
